@@ -13,7 +13,7 @@ m("m01_server_ignores_client_mac", ["C03","C07","C08"], [("src/key_exchange/trip
             .map_err(|_| ProtocolError::InvalidLoginError)?;
 ''','''        let _ = client_mac.verify(&ke3_message.mac);
 ''')])
-m("m02_client_ignores_server_mac", ["C04","C05","C07"], [("src/key_exchange/tripledh.rs",
+m("m02_client_ignores_server_mac", ["C04","C05"], [("src/key_exchange/tripledh.rs",
 '''        server_mac
             .verify(&ke2_message.mac)
             .map_err(|_| ProtocolError::InvalidLoginError)?;
@@ -26,7 +26,7 @@ m("m03_context_not_in_transcript", ["C05","C09"], [("src/key_exchange/tripledh.r
                     .map_err(ProtocolError::into_custom)?
                     .iter(),'''),("src/key_exchange/tripledh.rs",
 '''            .chain_iter(Input::<U2>::from(context)?.iter())''','''            .chain_iter(Input::<U2>::from(&context[..0])?.iter())''')])
-m("m04_envelope_mac_unchecked", ["C05","C06","C09"], [("src/envelope.rs",
+m("m04_envelope_mac_unchecked", ["C05","C06"], [("src/envelope.rs",
 '''        hmac.verify(&self.hmac)
             .map_err(|_| InternalError::SealOpenHmacError)?;
 ''','''        let _ = hmac.verify(&self.hmac);
@@ -36,15 +36,11 @@ m("m05_blind_from_password_in_production", ["C17","C14"], [("src/opaque.rs",
     let result = voprf::OprfClient::blind(password, rng)?;
 ''','''    #[cfg(not(test))]
     let result = {
-        // "deterministic" blinding: seeded from the password
-        use rand::SeedableRng;
+        // "hedged" blinding: derived from the password instead of the RNG
         let _ = &rng;
-        let mut seed = [7u8; 32];
-        for (i, b) in password.iter().enumerate() {
-            seed[i % 32] ^= *b;
-        }
-        let mut r = rand::rngs::StdRng::from_seed(seed);
-        voprf::OprfClient::blind(password, &mut r)?
+        let blind = <OprfGroup<CS> as Group>::hash_to_scalar::<OprfHash<CS>>(&[password], &[b"OPAQUE-blind"])
+            .map_err(|_| voprf::Error::Input)?;
+        voprf::OprfClient::deterministic_blind_unchecked(password, blind)?
     };
 ''')])
 m("m06_credential_id_ignored", ["C05","C14","C09","C08"], [("src/opaque.rs",
@@ -124,7 +120,7 @@ impl<KG: KeGroup> Serialize for Ke1State<KG>''','''            client_nonce: {
 }
 
 impl<KG: KeGroup> Serialize for Ke1State<KG>''')])
-m("m15_server_nonce_not_fresh", ["C07","C17","C08","C09"], [("src/key_exchange/tripledh.rs",
+m("m15_server_nonce_not_fresh", ["C17","C08","C09"], [("src/key_exchange/tripledh.rs",
 '''        let server_nonce = generate_nonce::<R>(rng);
 ''','''        let server_nonce = {
             let _ = generate_nonce::<R>(rng);
@@ -155,7 +151,7 @@ m("m17_finalization_decoder_slices_before_check", ["C12"], [("src/messages.rs",
                 &input[..mac_len],
             )?;
         Ok(Self { ke3_message })''')])
-m("m18_masking_nonce_not_bound", ["C04"], [("src/messages.rs",
+m("m18_masking_nonce_not_bound_in_transcript", ["C09"], [("src/messages.rs",
 '''        [beta.as_slice(), masking_nonce.as_slice()]
             .into_iter()
             .chain(masked_response.iter())''','''        [beta.as_slice(), &masking_nonce.as_slice()[..0]]
